@@ -6,7 +6,7 @@ import py2lean
 import structure
 import tracegen
 
-MODULES = ["targets_leaves", "targets_comb", "targets_bisect", "targets_misc", "targets_dist", "targets_params", "targets_planar"]
+MODULES = ["targets_leaves", "targets_comb", "targets_bisect", "targets_misc", "targets_dist", "targets_params", "targets_planar", "targets_flows"]
 
 def main(repo="/repo", outdir=None):
     here = os.path.dirname(os.path.abspath(__file__))
